@@ -47,3 +47,8 @@ void h_greatCircleDistanceM(void) { LatLng a, b; h3v_dbl = nondet_double(); doub
 void h_degsToRads(void) { double r = degsToRads(nondet_double()); __CPROVER_assert(0, "canary degsToRads"); }
 void h_radsToDegs(void) { double r = radsToDegs(nondet_double()); __CPROVER_assert(0, "canary radsToDegs"); }
 void h_gridDiskUnsafe(void) { H3Index origin = nondet_u64(); int k = nondet_int(); H3Index *out; h3v_err = nondet_u32(); h3v_n = nondet_i64(); H3Error e = gridDiskUnsafe(origin, k, out); __CPROVER_assert(0, "canary gridDiskUnsafe"); }
+
+#ifdef LRES
+/* bounded stand-in: origin resolution fixed (digit loops then have LRES iterations) */
+void h_localIjkToCell_res(void) { H3Index origin = S_SETRES(nondet_u64(), LRES); const CoordIJK *ijk; H3Index *out; H3Error e = localIjkToCell(origin, ijk, out); __CPROVER_assert(0, "canary localIjkToCell res"); }
+#endif
